@@ -130,16 +130,7 @@ class _StatePointDict(JSONAttrDict):
                 os.replace(job.path, new_workspace)
             except OSError as error:
                 os.replace(tmp_statepoint_file, self.filename)  # rollback
-                # Roll back the in-memory state point as well, otherwise the
-                # job handles would describe a job they do not point to.
-                old_statepoint = job._cached_statepoint
-                if old_statepoint is None:
-                    old_statepoint = self._load_from_resource()
-                with self._suspend_sync:
-                    # Start from scratch: an in-place update would keep values that
-                    # compare equal but have a different type (1, 1.0, True).
-                    self._data.clear()
-                    self._update(old_statepoint, _validate=False)
+                self._rollback_in_memory(job)
                 if error.errno in (errno.EEXIST, errno.ENOTEMPTY, errno.EACCES):
                     raise DestinationExistsError(new_id)
                 else:
@@ -151,6 +142,9 @@ class _StatePointDict(JSONAttrDict):
             # file move failed due to the job not being initialized so the file
             # doesn't exist, which is OK.
             if error.errno != errno.ENOENT:
+                # Nothing has been moved, the handles must keep describing the
+                # job they point to.
+                self._rollback_in_memory(job)
                 raise
 
         # Update each job instance.
@@ -183,6 +177,18 @@ class _StatePointDict(JSONAttrDict):
             job.init()
 
         logger.info(f"Moved '{old_id}' -> '{new_id}'.")
+
+    def _rollback_in_memory(self, job):
+        """Restore the state point that the jobs sharing this object had before a failed change."""
+        # Without this the job handles would describe a job they do not point to.
+        old_statepoint = job._cached_statepoint
+        if old_statepoint is None:
+            old_statepoint = self._load_from_resource()
+        with self._suspend_sync:
+            # Start from scratch: an in-place update would keep values that
+            # compare equal but have a different type (1, 1.0, True).
+            self._data.clear()
+            self._update(old_statepoint, _validate=False)
 
     def save(self, force=False):
         """Trigger a save to disk.
